@@ -45,7 +45,7 @@ void h_scan_end(void)
 	lex_ctx(ctx); reset_ghost();
 	if (shape == 0) lex_scratch(0); else if (shape == 1) lex_scratch(1); else if (shape == 2) lex_scratch(2); else if (shape == 3) lex_scratch(3); else lex_scratch(4);
 	cfg_scan_fp_end();
-	CHECK("C08", LEX_CTX_NOW == LC_TOP, "when a scan ends the scanner is back at top level, wherever the text stopped (inside a string, a comment, after an error)");
+	CHECK("C08,C03", LEX_CTX_NOW == LC_TOP, "when a scan ends the scanner is back at top level, wherever the text stopped (inside a string, a comment, after an error)");
 	CHECK("C08,C07", cfg_qstring == NULL && qstring_index == 0 && qstring_len == 0, "when a scan ends the scratch buffer is released and its bookkeeping cleared");
 	CHECK("C08,C13", g_buf_pops == 1 && g_buf_pushes == 0, "when a scan ends exactly one source is popped");
 	CANARY("scan_end");
